@@ -15,7 +15,7 @@ Mirrors, function by function:
 
 One thread = one resource `r`; `rstep S r` is the next atomic action of that thread (`none` = the
 thread is blocked or has ended).  The controller and the clocks are the environment (`estep`).
-The locked section `with_lock(sync_into; execute_cycle; sync_from)` is split into its five
+The locked section `with_lock(sync_into; execute_cycle; if ok { sync_from })` is split into its five
 actions (acquire, sync_into, execute_cycle, sync_from, release) so that *every* interleaving of
 several resources is an execution of the model; that the section nevertheless behaves as one
 atomic action is a theorem (Props/C20), not an assumption.
@@ -126,7 +126,7 @@ inductive Pc
   | lockWait              -- `shared.with_lock(..)`: waiting for the mutex
   | locked0               -- mutex held, before `sync_into_locked`
   | locked1               -- before `execute_cycle`
-  | locked2 (ok : Bool)   -- before `sync_from_locked`
+  | locked2 (ok : Bool)   -- after `execute_cycle` returned `ok`, before `if ok { sync_from_locked }`
   | locked3 (o : Outcome) -- before the guard is dropped
   | done (e : Exit)       -- thread ended
 deriving DecidableEq, Repr
@@ -263,8 +263,11 @@ def secStep (S : Sys) (r : Nat) (R : Res) (sh : Store) : Res × Store × Bool :=
     ({ R with store := p.1, execs := R.execs + 1, oks := if p.2 then R.oks + 1 else R.oks,
               pc := .locked2 p.2 }, sh, false)
   | .locked2 ok =>
-    let p := syncFrom S.names R.store sh
-    ({ R with pc := .locked3 (if p.2 then (if ok then .ok else .fault) else .undefined) }, p.1, false)
+    -- `if result.is_ok() { sync_from_locked(..)? }`: a faulted cycle is not written back
+    if ok then
+      let p := syncFrom S.names R.store sh
+      ({ R with pc := .locked3 (if p.2 then .ok else .undefined) }, p.1, false)
+    else ({ R with pc := .locked3 .fault }, sh, false)
   | .locked3 o => (post S r o R, sh, true)
   | _ => (R, sh, false)
 
@@ -415,10 +418,11 @@ def counterSys (n : Nat) (inc : Nat → Int) (input : Nat → Nat → Int) (cfg 
     initStore := fun _ => counterInit c0 p0,
     initShared := fun m => if m < 3 then counterInit c0 p0 m else none }
 
-/-- What the `k`-th cycles of resource `r` for `k < m` add to `cnt`. -/
+/-- What the `k`-th cycles of resource `r` for `k < m` add to `cnt` (a cycle that faults, at either
+fault point, is not written back). -/
 def contrib (inc : Nat → Int) (input : Nat → Nat → Int) (r : Nat) : Nat → Int
   | 0 => 0
-  | m + 1 => contrib inc input r m + (if input r m = 1 then 0 else inc r)
+  | m + 1 => contrib inc input r m + (if input r m = 1 ∨ input r m = 2 then 0 else inc r)
 
 def sumTo (f : Nat → Int) : Nat → Int
   | 0 => 0
